@@ -394,6 +394,19 @@ def run_long(rule, both=True):
                                                  rule, names[i], "earlier" if direction == "forward" else "later", direction), desc))
             elif isinstance(r, str) and r != srcs[i]:
                 res["nontrivial"].append(key_of(["long", rule, direction, names[i]]))
+        # revisit: by now more than 100 other texts went through the parse cache (its capacity), so the entries of
+        # the early inputs are evicted while longer-lived caches may still hold objects derived from them (pass added
+        # after the seeded change C05-starred-import-identity-vs-evicted-parse)
+        if direction == "forward":
+            for i in order:
+                r = apply_op(("rule", rule), srcs[i])
+                ex["transitions"] += 1
+                res["n"] += 1
+                if r != base[i]:
+                    desc = {"long": rule, "direction": "forward_then_revisit", "atom": names[i]}
+                    res["viol"].append(violation(rule, "result_depends_on_history",
+                                                 "%s on atom %s, applied a second time after a pass over all atoms (cache entries evicted in between), differs from the fresh result" % (
+                                                     rule, names[i]), desc))
         ex["states"].add(state_digest())
         bad = unfaithful_entries()
         for cname, what in bad[:1]:
